@@ -35,6 +35,11 @@ def run(cmd, timeout=None, env=None, cwd=None, check=False, stdin=None):
     e = dict(os.environ)
     if env:
         e.update({k: str(v) for k, v in env.items()})
+    if cwd is None:
+        # harnesses run in a scratch directory: parts of the libraries write debug files to the current directory
+        # (libdialect's orthogonal router: NN_MM_routing_attempt.svg whenever a Logger is passed)
+        cwd = os.path.join(BUILD, 'run', 'cwd')
+        os.makedirs(cwd, exist_ok=True)
     try:
         p = subprocess.run(cmd, stdout=subprocess.PIPE, stderr=subprocess.STDOUT, timeout=timeout,
                            env=e, cwd=cwd, input=stdin, universal_newlines=True, errors='replace')
